@@ -176,6 +176,12 @@ theorem read_bytes (r r' : Reader) (free : Nat) (nb : Bytes) (h : r.read free = 
     subst h1 h2
     simp
     omega
+  split at h
+  · simp only [Prod.mk.injEq, ReadRes.bytes.injEq] at h
+    obtain ⟨h1, h2⟩ := h
+    subst h1 h2
+    simp
+    omega
   · simp at h
   · rename_i n rest hs
     simp only [Prod.mk.injEq, ReadRes.bytes.injEq] at h
@@ -187,6 +193,8 @@ theorem read_bytes (r r' : Reader) (free : Nat) (nb : Bytes) (h : r.read free = 
 theorem read_intr (r r' : Reader) (free : Nat) (h : r.read free = (.interrupted, r')) :
     r'.data = r.data ∧ r'.script.length < r.script.length := by
   unfold Reader.read at h
+  split at h
+  · simp at h
   split at h <;> simp at h
   rename_i rest hs
   obtain rfl := h
@@ -198,6 +206,11 @@ def NoZero (script : List Step) : Prop := ∀ st ∈ script, st ≠ Step.ret 0
 theorem read_script_suffix (r r' : Reader) (free : Nat) (x : ReadRes) (h : r.read free = (x, r')) :
     ∃ pre, r.script = pre ++ r'.script := by
   unfold Reader.read at h
+  split at h
+  · simp only [Prod.mk.injEq] at h
+    obtain ⟨_, h2⟩ := h
+    subst h2
+    exact ⟨[], by simp⟩
   split at h
   · simp only [Prod.mk.injEq] at h
     obtain ⟨_, h2⟩ := h
@@ -217,6 +230,16 @@ theorem read_script_suffix (r r' : Reader) (free : Nat) (x : ReadRes) (h : r.rea
 theorem read_zero_eof (r r' : Reader) (free : Nat) (hz : NoZero r.script) (hfree : 0 < free)
     (h : r.read free = (.bytes [], r')) : r'.data = [] := by
   unfold Reader.read at h
+  split at h
+  · rename_i hb
+    simp only [Prod.mk.injEq, ReadRes.bytes.injEq] at h
+    obtain ⟨h1, h2⟩ := h
+    subst h2
+    have : r.data.length = 0 := by
+      cases hd : r.data with
+      | nil => rfl
+      | cons x xs => rw [hd] at h1; simp at h1; omega
+    simp [List.length_eq_zero_iff.1 this]
   split at h
   · simp only [Prod.mk.injEq, ReadRes.bytes.injEq] at h
     obtain ⟨h1, h2⟩ := h
